@@ -74,10 +74,10 @@ func init() {
 func init() {
 	props["C12"] = PropDef{Level: "exploration", QuickS: 100, ThoroughS: 900,
 		Units: []Unit{
-			{Name: "tcpasm-c12", Pkg: "./props/tcpasm", Sim: "c12t", Share: 0.25},
-			{Name: "reasm-c12", Pkg: "./props/reasm", Sim: "c12r", Share: 0.25},
-			{Name: "tcpasm-c12-race", Pkg: "./props/tcpasm", Sim: "c12t", Race: true, Share: 0.25, Procs: 8},
-			{Name: "reasm-c12-race", Pkg: "./props/reasm", Sim: "c12r", Race: true, Share: 0.25, Procs: 8},
+			{Name: "tcpasm-c12", Pkg: "./props/tcpasm", Sim: "c12t", Share: 0.25, Instr: true},
+			{Name: "reasm-c12", Pkg: "./props/reasm", Sim: "c12r", Share: 0.25, Instr: true},
+			{Name: "tcpasm-c12-race", Pkg: "./props/tcpasm", Sim: "c12t", Race: true, Share: 0.25, Procs: 8, Instr: true},
+			{Name: "reasm-c12-race", Pkg: "./props/reasm", Sim: "c12r", Race: true, Share: 0.25, Procs: 8, Instr: true},
 		},
 		Rule:     "one evaluation = one run of 2-3 assembler goroutines (plus an optional flusher with its own assembler) on one shared StreamPool under the cooperative scheduler: real goroutines, exactly one running, parked at every API call boundary, every stream callback and in front of every lock acquisition of the package (verif hook), the next runner drawn from the tape (pre-emption rate is a per-run knob); 1-3 short connections whose directions go to different workers (or whose packets are split across workers); the merged per-worker history is checked offline; non-trivial = at least one pre-emption or a concurrent flusher; distinct = distinct event-log fingerprints among non-trivial runs; distinct interleavings = distinct hashes of the (worker, yield site) sequence, reported as distinct_abstract_states",
 		RealStub: "real: tcpassembly / reassembly Assembler and StreamPool under 2-4 goroutines with their real mutexes; stub: packet senders, streams (the history recorder); scheduler: sim/coop",
@@ -87,12 +87,12 @@ func init() {
 func init() {
 	pktAssume := []string{"interleavings are explored at API-call granularity (the decode path takes no locks); the race detector, which is happens-before based, covers what the scheduler cannot interleave", "packets are handed between goroutines through one atomic pointer each, the synchronisation any program needs for a hand-over", "inputs are Ethernet/Dot1Q/IPv4/IPv6/TCP/UDP/DNS/ICMPv4/ICMPv6/GRE/ARP stacks serialised by the harness, plus truncations and bit flips; oracles compare decodes with decodes, never with golden values"}
 	props["C02"] = PropDef{Level: "exploration", QuickS: 45, ThoroughS: 600,
-		Units:    []Unit{{Name: "packet-c02", Pkg: "./props/packet", Sim: "c02", Share: 0.4}, {Name: "packet-c02-race", Pkg: "./props/packet", Sim: "c02", Race: true, Share: 0.6, Procs: 8}},
+		Units:    []Unit{{Name: "packet-c02", Pkg: "./props/packet", Sim: "c02", Share: 0.3, Instr: true}, {Name: "packet-c02-race", Pkg: "./props/packet", Sim: "c02", Race: true, Share: 0.5, Procs: 8, Instr: true}, {Name: "packet-c02-cold", Pkg: "./props/packet", Sim: "c02cold", Share: 0.2, Instr: true, Cold: true}},
 		Rule:     "one evaluation = one run of 2-4 goroutines under the cooperative scheduler over a seeded corpus of 4-12 inputs: decoders (NewPacket with four option sets, compared with a quiet-state reference decode of the same bytes), publishers (eager packet + recorded accessor answers) and readers (Layers, Layer(t), LayerClass, link/network/transport/application/error layer, String, Dump, flows, VerifyChecksums on shared packets); the -race unit runs the same simulation with a hand-off hidden from the race detector; non-trivial = at least one pre-emption or corrupted input; distinct = distinct event-log fingerprints among non-trivial runs",
 		RealStub: "real: gopacket.NewPacket, eager packet accessors, layer decoders, VerifyChecksums, String/Dump; stub: callers (scheduler workers)",
 		Assume:   pktAssume}
 	props["C04"] = PropDef{Level: "exploration", QuickS: 45, ThoroughS: 600,
-		Units:    []Unit{{Name: "packet-c04", Pkg: "./props/packet", Sim: "c04", Share: 0.5}, {Name: "packet-c04-race", Pkg: "./props/packet", Sim: "c04", Race: true, Share: 0.5, Procs: 8}},
+		Units:    []Unit{{Name: "packet-c04", Pkg: "./props/packet", Sim: "c04", Share: 0.5, Instr: true}, {Name: "packet-c04-race", Pkg: "./props/packet", Sim: "c04", Race: true, Share: 0.5, Procs: 8, Instr: true}},
 		Rule:     "one evaluation = one run of 2-4 goroutines under the cooperative scheduler, each executing a seeded sequence of decode (default / NoCopy / Pool / Pool+Lazy / Lazy), dispose (own pooled packets, exactly once), overwrite (the producer reuses its input buffer) and hand-over to another goroutine, over inputs whose lengths include 0, 1, 1499, 1500, 1501 and 3000; after every step each live copied packet must still have the signature it was created with, NoCopy/Pool decodes must equal the default decode, and no two undisposed pooled packets may share a pool block; non-trivial = at least one pre-emption or corrupted input; distinct = distinct event-log fingerprints among non-trivial runs",
 		RealStub: "real: gopacket.NewPacket, sync.Pool of packet blocks, PooledPacket.Dispose, lazy and eager packets; stub: callers (scheduler workers)",
 		Assume:   append([]string{"which pool block a decode receives is not owned by the simulator (sync.Pool has per-P caches and drops items at random under -race); verdicts do not depend on it"}, pktAssume...)}
